@@ -767,7 +767,9 @@ def oracle_check(events: List[Tuple[int, int, int]], parent: Dict[int, int], dep
                 bad.append(f"positive event {i} [{ts},{en}]: parent {parent[i]} but innermost enclosing event is {exp}")
         else:
             p = parent[i]
-            if p != root and not (ev[p][0] <= ts <= ev[p][1]):
+            if p != root and p not in ev:
+                bad.append(f"zero-duration event {i}: parent {p} is neither the thread root nor an event of this thread")
+            elif p != root and not (ev[p][0] <= ts <= ev[p][1]):
                 bad.append(f"zero-duration event {i} at {ts}: parent {p} span [{ev[p][0]},{ev[p][1]}] does not contain its instant")
     return bad
 
